@@ -32,7 +32,7 @@ chk("C05", "proof",
     "Shape claims are about the exact-arithmetic meaning of the code (no posing of monotonicity under rounding was found that nlsat finishes); 3,4 (quick) / 3..5 knots (the coefficient-wise Kruger identity for 3 and 4 knots; at 5 knots one of its sixteen identities does not finish in nlsat).",
     SMT, E2, "DESIGN.md §4 C05")
 chk("C06", "proof",
-    "linear() executed symbolically as a whole from MIR for 2..4 (5) knots; for every path -- classified by the solver as narrower than / at least machine epsilon wide / both, independent of the code's branch polarity -- z3 proves running-maximum ends, the machine-epsilon threshold (also bit-precisely in FP, where `<` vs `<=` differs at exactly one float), constant narrow segments, the straight-line interpolant for every real t, non-vanishing divisors and the left-knot rounding bound 4u; Kani confirms ends/length/no-panic on the compiled code.",
+    "linear() executed symbolically as a whole from MIR for 2..6 and 8 (thorough also 10) knots (exact arithmetic; 5 knots and more as parallel parts), 2..3 (4) knots bit-precisely; for every path -- classified by the solver as narrower than / at least machine epsilon wide / both, independent of the code's branch polarity -- z3 proves running-maximum ends, the machine-epsilon threshold (also bit-precisely in FP, where `<` vs `<=` differs at exactly one float), constant narrow segments, the straight-line interpolant for every real t, non-vanishing divisors and the left-knot rounding bound 4u; Kani confirms ends/length/no-panic on the compiled code.",
     "Right-knot rounding bound (conditioning |x|/dx) not decided; knot counts beyond the list outside the claim.",
     SMT + "; Kani structure harness", BOTH, "DESIGN.md §4 C06")
 chk("C07", "proof",
